@@ -89,12 +89,12 @@ theorem C15_bsearch_eq_reference (n : Nat) (cmp : Nat → Ordering) (hm : Mono n
 /-! ## exception directory -/
 
 /-- The directory is `Size / 12` RUNTIME_FUNCTION records at the directory's RVA; a `Size` that is not a
-multiple of 12 is `Invalid`; a missing data-directory slot is `Bounds`; a zero RVA is `Null`. -/
+multiple of 12 is `Invalid`; a missing data-directory slot is `Null`, and so is a zero RVA. -/
 theorem C15_exception_entries (v : View) :
     (∀ t, excTryFrom v = .ok t ↔
       ∃ va size, v.dataDir 3 = some (va, size) ∧ Spec.recordCount size 12 = .ok (excCount t) ∧
         ∃ s, v.at (.rva va) size 4 = .ok s ∧ t = ⟨s.off, size, 4⟩) ∧
-    (v.dataDir 3 = none → excTryFrom v = .err .bounds) ∧
+    (v.dataDir 3 = none → excTryFrom v = .err .null) ∧
     (∀ va size, v.dataDir 3 = some (va, size) → size % 12 ≠ 0 → excTryFrom v = .err .invalid) ∧
     (∀ size, v.dataDir 3 = some (0, size) → size % 12 = 0 → excTryFrom v = .err .null) := by
   rw [excTryFrom_eq]
@@ -328,12 +328,12 @@ theorem C15_unwind_info (v : View) (t : Ref) (i : Nat) :
 /-! ## debug directory -/
 
 /-- The directory is `Size / 28` IMAGE_DEBUG_DIRECTORY records at the directory's RVA; `Invalid` when
-`Size` is not a multiple of 28, `Bounds` without a data-directory slot, `Null` for a zero RVA. -/
+`Size` is not a multiple of 28, `Null` without a data-directory slot and for a zero RVA. -/
 theorem C15_debug_entries (v : View) :
     (∀ t, debugTryFrom v = .ok t ↔
       ∃ va size, v.dataDir 6 = some (va, size) ∧ Spec.recordCount size 28 = .ok (debugCount t) ∧
         ∃ s, v.at (.rva va) size 4 = .ok s ∧ t = ⟨s.off, size, 4⟩) ∧
-    (v.dataDir 6 = none → debugTryFrom v = .err .bounds) ∧
+    (v.dataDir 6 = none → debugTryFrom v = .err .null) ∧
     (∀ va size, v.dataDir 6 = some (va, size) → size % 28 ≠ 0 → debugTryFrom v = .err .invalid) ∧
     (∀ size, v.dataDir 6 = some (0, size) → size % 28 = 0 → debugTryFrom v = .err .null) := by
   rw [debugTryFrom_eq]
@@ -684,7 +684,7 @@ theorem C15_security_view (v : View) (hk : v.kind = .view) : securityTryFrom v =
 
 /-- The remaining error kinds of the security directory, in the order the code tests them. -/
 theorem C15_security_errors (v : View) (hk : v.kind = .file) :
-    (v.dataDir 4 = none → securityTryFrom v = .err .bounds) ∧
+    (v.dataDir 4 = none → securityTryFrom v = .err .null) ∧
     (∀ size, v.dataDir 4 = some (0, size) → securityTryFrom v = .err .null) ∧
     (∀ va size, v.dataDir 4 = some (va, size) → va ≠ 0 → (va % 8 ≠ 0 ∨ size % 8 ≠ 0) →
       securityTryFrom v = .err .misaligned) ∧
